@@ -21,6 +21,9 @@ CORPORA = {
     "dst": dict(model="MC_Dst", quick=dict(DstExtra=9), thorough=dict(DstExtra=33), profiles=DEV_REL, place="both"),
     "fb": dict(model="MC_Fb", quick={}, thorough={}, profiles=DEV_REL, place="both"),
     "efi": dict(model="MC_Efi", quick=dict(MaxD=56, LCap=64), thorough=dict(MaxD=128, LCap=200), profiles=DEV_REL, place="both"),
+    # a thin slice of the EFI corpus for C05 (extents of what iteration and Debug hand out): sizes around the 40-byte descriptor
+    "efi5": dict(model="MC_Efi", quick=dict(MaxD=56, LCap=64, EfiSizeSet="{0, 8, 24, 39, 40, 48}"), thorough=dict(MaxD=128, LCap=200, EfiSizeSet="{0, 1, 8, 16, 24, 32, 39, 40, 41, 48, 56, 64, 80}"),
+                 profiles=DEV_REL, place="both"),
     "elf": dict(model="MC_Elf", quick=dict(MaxN=3, ElfRots="{0, 3, 6, 7}"), thorough=dict(MaxN=4, ElfSizes="{0, 1, 8, 24, 39, 40, 41, 48, 63, 64, 65, 72, 128}", ElfRots="{0, 3, 5, 7}"),
                 profiles=DEV_REL, place="both"),
     "hload": dict(model="MC_Header", cfg="MC_HLoad", quick=dict(MaxLen=64), thorough=dict(MaxLen=160), profiles=DEV_REL, place="both"),
@@ -137,9 +140,10 @@ CHECKS = {
     "C04": dict(thorough_extra=["mut", "session"], corpora=["fields", "getters", "fb", "rsdp", "elf", "repo"],
                 rule="fields: every kind at its conformant size x 2 marker fills x 2 positions, every accessor; "
                      "getters: all sequences of <= MaxTags tags over 6 kinds (duplicates use different fills); fb: all 256 type bytes"),
-    "C05": dict(thorough_extra=["mut"], corpora=["dst", "fb", "hdst", "adv"],
+    "C05": dict(thorough_extra=["mut"], corpora=["dst", "fb", "hdst", "adv", "elf", "efi5"],
                 rule="every variable-length kind x every declared size 0..base+3*elem+DstExtra and three sizes beyond the region, "
-                     "marker bytes in padding and in the neighbouring tag"),
+                     "marker bytes in padding and in the neighbouring tag; ELF tables and EFI maps (sizes around the 40-byte descriptor) with the tag "
+                     "first or last in the region: whatever iteration (own method, deprecated getter, nth, last) and Debug hand out"),
     "C02": dict(corpora=["load", "big"],
                 rule="cases = all (total size, reserved word, last-8-bytes type/size) in bounds + null pointer; "
                      "non-trivial = every case (each has a distinct specified outcome class or size); structural regions with total sizes "
